@@ -608,6 +608,19 @@ Proof.
   - simpl in Xa. subst. reflexivity.
 Qed.
 
+(* between calls the pool is at full strength: every slot holds a worker that has not left its loop (a worker that retired
+   during the call - also with its very last chunk - has been replaced before the call ended) *)
+Lemma idle_full_strength cfg s : SInv cfg s -> PInv s -> XInv s -> s_main s = MIdle ->
+  forall j w, nth_error (s_procs s) j = Some w -> retiring w = false.
+Proof.
+  intros SI PI XI Hm j w N.
+  assert (Roff : s_rep s = ROff) by (apply (s_rep0 _ _ SI); rewrite Hm; reflexivity).
+  assert (Pn : pending s = []) by (unfold pending, rep_wid; rewrite Roff; simpl; apply (x_quiet s XI); rewrite Roff; reflexivity).
+  destruct (retiring w) eqn:G; auto. exfalso.
+  assert (Hin : In (w_id w) (pending s)) by (apply (p_pend s PI) with (k := j); auto; rewrite Hm; reflexivity).
+  rewrite Pn in Hin. exact Hin.
+Qed.
+
 (* ------------------------------------------------------------------ leaving the pool: stop orders and the workers that will take them *)
 Definition consumer (w : worker) : bool := match w_pc w with WNew | WBegin | WIdle | WHold _ _ => true | _ => false end.
 Definition cons1 (w : worker) : nat := if consumer w then 1 else 0.
